@@ -1,6 +1,7 @@
 import GoDebian.Drv.Util
 import GoDebian.Drv.Version
 import GoDebian.Model.Dependency
+import GoDebian.Spec.Dependency
 
 namespace GoDebian.Drv
 open GoDebian GoDebian.Dep
@@ -84,6 +85,63 @@ def dependencyHandler : Handler
       let num ← hx num
       let v ← readVersion e u r
       pure (bool01 (Dep.satisfiedBy ⟨num, op⟩ v))
+  | _, _ => none
+
+end GoDebian.Drv
+
+namespace GoDebian.Drv
+open GoDebian GoDebian.Spec.Dependency
+
+def rdN {α} (item : List String → Option (α × List String)) : Nat → List String → Option (List α × List String)
+  | 0, ts => some ([], ts)
+  | n+1, ts => do
+      let (x, ts) ← item ts
+      let (xs, ts) ← rdN item n ts
+      pure (x :: xs, ts)
+
+def rdCounted {α} (item : List String → Option (α × List String)) : List String → Option (List α × List String)
+  | n :: ts => do rdN item (← n.toNat?) ts
+  | [] => none
+
+def rdBytes : List String → Option (Bytes × List String)
+  | t :: ts => do pure (← hx t, ts)
+  | [] => none
+
+def rdStage : List String → Option ((Bool × Bytes) × List String)
+  | n :: s :: ts => do pure ((n == "1", ← hx s), ts)
+  | _ => none
+
+def rdPoss : List String → Option (SPoss × List String)
+  | sv :: name :: ts => do
+      let name ← hx name
+      let (qual, ts) ← match ts with
+        | "N" :: ts => some (none, ts)
+        | "Q" :: q :: ts => do pure (some (← hx q), ts)
+        | _ => none
+      let (ver, ts) ← match ts with
+        | "N" :: ts => some (none, ts)
+        | "V" :: op :: num :: ts => do pure (some (← hx op, ← hx num), ts)
+        | _ => none
+      match ts with
+      | neg :: ts =>
+        let (archs, ts) ← rdCounted rdBytes ts
+        let (stages, ts) ← rdCounted (rdCounted rdStage) ts
+        pure (⟨sv == "1", name, qual, ver, neg == "1", archs, stages⟩, ts)
+      | [] => none
+  | _ => none
+
+def rdNat : List String → Option (Nat × List String)
+  | t :: ts => do pure (← t.toNat?, ts)
+  | [] => none
+
+def depSpecHandler : Handler
+  | "depgen", ts => do
+      let (d, ts) ← rdCounted (rdCounted rdPoss) ts
+      let (cs, _) ← rdCounted rdNat ts
+      pure (out (render d cs) ++ " " ++ dumpDep (denote d) ++ " " ++ bool01 (wfDep d))
+  | "depspec", [s, expected] => do
+      let s ← hx s
+      pure (showRes dumpDep (Dep.parse s) ++ " ; spec=ok " ++ expected)
   | _, _ => none
 
 end GoDebian.Drv
